@@ -82,7 +82,7 @@ def run(ck, m):
                 ok = isinstance(recv, ast.Name) and _fresh(fn, recv.id) and recv.id not in params
                 ck.ob("R1", enclosing_stmt(n), ok, f"{q}: `{r}.close()` closes an object that was not created here: use self._close_image() so that a caller-supplied image survives", stmt=f"{q}: {r}.close()")
     ck.expect(n1 >= 6, f"expected >= 6 close/with sites in term_image/image, found {n1}")
-    n_ci = sum(1 for rel in (CM, BL, KT, IT) for n in ast.walk(m.tree(rel)) if isinstance(n, ast.Call) and (call_name(n) or "").endswith("._close_image"))
+    n_ci = sum(1 for rel in (CM, BL, KT, IT) for n in m.walk(rel) if isinstance(n, ast.Call) and (call_name(n) or "").endswith("._close_image"))
     ck.expect(n_ci >= 12, f"expected >= 12 _close_image calls, found {n_ci}")
 
     # ---- R2 ----------------------------------------------------------------------------
@@ -267,8 +267,9 @@ def run(ck, m):
     ok = bool(sv) and any(isinstance(s, ast.If) and "isinstance" in norm(s.test) and any(norm(x) in (f"self.size = {norm(sv[0].targets[0])}", f"self._size = {norm(sv[0].targets[0])}") for x in s.body) for s in rt.finalbody)
     ck.ob("R6", rn, ok, "_renderer must restore a dynamic size in finally (rendering never fixes a dynamic size)", stmt="_renderer: dynamic size restored")
     writers = set()
-    for rel, f in m.files.items():
-        for t, st in stores_in(f.tree, local=False):
+    for rel, _q, t, st in m.stores():
+
+        if True:
             if isinstance(t, ast.Attribute) and t.attr == "_size":
                 writers.add(f"{rel}::{getattr(st, '_q', '')}")
     allowed = {f"{CM}::BaseImage.size#2", f"{CM}::BaseImage.set_size", "widget/_urwid.py::UrwidImage.render", f"{CM}::BaseImage.size"}
